@@ -20,6 +20,9 @@ def main():
     elif pid == 'C11':
         import polltab
         polltab.main(pid, 'quick' if tier == 'replay' else tier, rp)
+    elif pid == 'C15':
+        import fdt
+        fdt.main(pid, 'quick' if tier == 'replay' else tier, rp)
     elif pid == 'C12':
         import after
         after.main(pid, 'quick' if tier == 'replay' else tier, rp)
